@@ -127,6 +127,29 @@ def main(argv=None):
     if not samples:
       samples = [dict(note="no clean sample run available")]
     rate = n_ok / wall * 3600 if wall > 0 else 0
+    fk = {}
+
+    def _fk(name, **parts):
+      d = {k: int(cov.get(v, 0)) for k, v in parts.items() if v in cov}
+      if any(d.values()):
+        fk[name] = d
+    _fk("preprocessor raises at its k-th call (10 exception types)", armed="faults_armed", fired="faults_fired")
+    _fk("fit interrupted at a drawn metric-learn line event (KeyboardInterrupt / MemoryError)",
+        armed="interrupts_armed", fired="interrupts_fired", swallowed_by_library="interrupts_swallowed")
+    _fk("graphical-lasso solver stub (raises / returns NaN, inf, indefinite, slightly negative)", fired="glasso_stub_fired")
+    _fk("ARPACK eigsh: forced ArpackNoConvergence", fired="eigsh_forced_noconv", eigsh_calls="eigsh_calls")
+    _fk("process restart (pickle round trip, same process)", fired="restart_inproc")
+    _fk("process restart (fresh interpreter, other PYTHONHASHSEED)", fired="restart_fresh")
+    _fk("fresh-interpreter repetition of seeded calls", fired="fresh_process_checked")
+    _fk("ambient RNG / global state perturbation", fired="op_ambient")
+    _fk("simulated clock jumps (forwards and backwards)", fired="clock_jumps", clock_reads="clock_reads")
+    for k_ in sorted(cov):
+      if k_.startswith("fault_") and not k_.startswith(("fault_at_call", "fault_exc_", "fault_fired_in")):
+        fk.setdefault("graphical-lasso stub: failure modes", {})[k_[len("fault_"):]] = int(cov[k_])
+      if k_.startswith("draw_program_"):
+        fk.setdefault("PRNG draw programs (int seed / recording / scripted)", {})[k_[len("draw_program_"):]] = int(cov[k_])
+      if k_.startswith("fault_exc_"):
+        fk.setdefault("preprocessor exception types fired", {})[k_[len("fault_exc_"):]] = int(cov[k_])
     evidence = dict(
         property_id=pid, tier=tier, seed=vseed, level="exploration",
         wall_s=round(wall, 2),
@@ -143,6 +166,9 @@ def main(argv=None):
             runs_per_hour=int(rate),
             stopped_by_wall_budget=bool(stopped_early),
             counters=dict(sorted(cov.items())),
+            fault_kinds_injected=fk,
+            fault_kinds_note="how often each fault / perturbation kind actually fired inside an operation in "
+                             "this run (not merely configured); kinds this property's simulator does not use are absent",
             inconclusive=dict(inconc),
             inconclusive_runs=n_inc_runs,
             harness_errors=len(herr),
